@@ -1,6 +1,6 @@
 /* C19 - shared harness part: builds an AutomationMgr with NS slots x PS sub-automations (exact-size heap
- * objects, as the constructor allocates them) whose every field the extracted code reads comes from the input
- * struct IN; recorder stubs for rtosc_message / backend / snprintf; snapshots of the queue-relevant state.
+ * objects, as the constructor allocates them; with -DSYMCFG: nslots <= NS, per_slot <= PS symbolic over
+ * maximal-size objects) whose every field the extracted code reads comes from the input struct IN; recorder stubs for rtosc_message / backend / snprintf; snapshots of the queue-relevant state.
  *
  * The code under verification is ctx.ext/automations_ext.h: the method bodies of src/cpp/automations.cpp,
  * extracted mechanically on every run (props/C19.py, DESIGN section 4 route R2). */
